@@ -69,14 +69,16 @@ def mk_array(F, dtype, values, shape=None):
 # re-formatted to the requested format by the named route before the symbolic code is written.  A well-formed object must behave the
 # same whatever its past (stale cached attributes are exactly what this is after).
 AGE = None
-AGE_ROUTES = ('resize', 'resize_dtype', 'resize_nint', 'like', 'resize_signed_then_sizes', 'resize_signed_only')
+AGE_ROUTES = ('resize', 'resize_dtype', 'resize_nint', 'like', 'resize_signed_then_sizes', 'resize_signed_only', 'int_born')
 
 
 def _aged(F, signed, n_word, n_frac, shape, kw):
     k = size_of(shape) if shape else 1
     first = nested([1] * k, shape) if shape else 1
     s0 = (not signed) if (AGE in ('resize_signed_then_sizes', 'resize_signed_only') and n_word > 1) else signed
-    if AGE == 'resize_signed_only':
+    if AGE == 'int_born':
+        x = F.Fxp(first, s0, n_word + 2, 0, **kw)            # born integer-valued (n_frac = 0, Python ints): value type int
+    elif AGE == 'resize_signed_only':
         x = F.Fxp(first, s0, n_word, n_frac, **kw)           # same sizes, other signedness: only the sign is changed later
     else:
         x = F.Fxp(first, s0, n_word + 2, n_frac + 1, **kw)
@@ -86,7 +88,7 @@ def _aged(F, signed, n_word, n_frac, shape, kw):
     if n_word + 2 < 64 and n_frac + 1 < 60:
         x.astype(int)           # (on a 64+ bit scalar with n_frac != 0 astype(int) raises AttributeError: observed, outside the properties)
     x.set_val(nested([1] * k, shape) if shape else 1)
-    if AGE == 'resize':
+    if AGE in ('resize', 'int_born'):
         x.resize(signed, n_word, n_frac)
     elif AGE == 'resize_dtype':
         x.resize(dtype=fmt_str(signed, n_word, n_frac))
